@@ -124,7 +124,7 @@ def stiefel_class_only_rows():
     return ['so-exp', 'so-cayley']
 
 
-PATTERNS = ['normal', 'uniform', 'equal', 'onehot', 'signflip']
+PATTERNS = ['normal', 'uniform', 'equal', 'onehot', 'signflip', 'zero_sample']
 
 
 def make_theta(rng, n, batch, scale, pattern, min_norm):
@@ -139,6 +139,14 @@ def make_theta(rng, n, batch, scale, pattern, min_norm):
         t = np.zeros(shape)
         idx = rng.integers(0, n, size=tuple(batch))
         np.put_along_axis(t, np.asarray(idx)[..., None], scale, axis=-1)
+    elif pattern == 'zero_sample':
+        # one sample of the batch (or the single sample) is exactly zero: the maps that do not divide by a norm are defined there
+        t = rng.normal(size=shape) * scale
+        if not min_norm:
+            if len(shape) == 1:
+                t[...] = 0
+            else:
+                t[(0,) * (len(shape) - 1)] = 0
     else:
         t = np.abs(rng.normal(size=shape)) * scale * rng.choice([-1.0, 1.0], size=shape)
     if min_norm:
